@@ -26,11 +26,7 @@ pub fn build_state(mode: &str, ops: &str) -> Result<St, String> {
         match f.as_slice() {
             ["a", id, d] => {
                 let (id, d) = (unhex_u64(id), unhex_bytes(d));
-                let r = match &mut st {
-                    St::S(p) => p.add_tile(id, d),
-                    St::A(p) => p.add_tile(id, d),
-                };
-                r.map_err(|e| format!("add_tile: {e}"))?;
+                add_any(&mut st, id, d).map_err(|e| format!("add_tile: {e}"))?;
             }
             ["r", id] => match &mut st {
                 St::S(p) => p.remove_tile(unhex_u64(id)),
